@@ -5,6 +5,7 @@ From TV Require Import Model.Trivia Model.Strings Model.Datetime Model.Numbers M
 From TV Require Import Proofs.LexEquivBase Proofs.PrintBackBase Proofs.PrintBackEnc Proofs.PrintBackKey Proofs.PrintBackValue Proofs.PrintBackDoc
                        Proofs.PrintBackSort Proofs.PrintBackEnts Proofs.PrintBackHKey Proofs.PrintBackDVals Proofs.PrintBackDAll Proofs.PrintBackDKey Proofs.PrintBackIValue.
 From TV Require Import Spec.Norm Proofs.TilingNormScan Proofs.TilingNormStr Proofs.TilingCmt.
+From TV Require Import Proofs.GrammarBase Proofs.GrammarValueBase.
 Require Import Lia ZifyBool ZifyN ZifyNat.
 
 (* the source position of an item: the start of the header's table span; the start of the line's last key *)
@@ -42,6 +43,10 @@ Definition line_rest (s : bytes) (k' : key) (v : value) : bytes :=
   decor_suffix (k_leaf (tkey s k')) (snd DEFAULT_KEY_DECOR) ++ [x3d]
   ++ encode_value (S (value_size (tvalue s v))) (tvalue s v) DEFAULT_VALUE_DECOR ++ [x0a].
 
+(* where a value comes from: it denotes the data of a `val` of the grammar, and holds values only *)
+Definition val_fact (v : value) : Prop :=
+  exists t a, val_tok t a /\ absv v = den a /\ aval_ok a = true /\ vwf v = true.
+
 Definition sitem_cj (s : bytes) (it : sitem) : Prop :=
   let '(x, txt) := it in
   match x with
@@ -51,10 +56,11 @@ Definition sitem_cj (s : bytes) (it : sitem) : Prop :=
       /\ cj anyf (raw_encode (traw s (suf_raw d)) [] ++ [x0a]) ct /\ (forall r, qstop ((raw_encode (traw s (suf_raw d)) [] ++ [x0a]) ++ r))
       /\ cj anyf txt (cl ++ ct)
   | PL k' v =>
-    vok s v = true ->
+    val_fact v /\
+    (vok s v = true ->
     exists cl ct,
       cj anyf (line_lead s k') cl /\ cj anyf (line_rest s k' v) ct /\ (forall r, qstop (line_rest s k' v ++ r))
-      /\ cj anyf txt (cl ++ ct)
+      /\ cj anyf txt (cl ++ ct))
   end.
 
 Lemma ppos_line k v ja jb : k_repr k = Some (raw_with_span (pos ja, pos jb)) -> pos ja <> pos jb -> ppos (PL k v) = pos ja.
